@@ -1,4 +1,5 @@
 import IGVerif.Props.Ties
+import IGVerif.Proofs.ValidateSpec
 /-! C11 — malformed input is rejected with its specific error, never half-converted. -/
 namespace IGVerif.C11
 open IGVerif
@@ -26,5 +27,13 @@ theorem rule_codes_distinct :
       "PARSING_ERROR_NESTING_ON_UNSUPPORTED_COMPONENT", "PARSING_ERROR_EMPTY_LEAF", "PARSING_ERROR_NO_COMBINATIONS",
       "PARSING_NO_ERROR"]
     (names.map code).eraseDups.length = names.length := by decide
+
+/-- **Unequal numbers of opening and closing parentheses (or braces) are exactly what the
+    balance check rejects**: the counter model of `validateInput` accepts a text iff it contains
+    as many opening as closing symbols -/
+theorem balance_check_rejects_exactly_unequal_counts (s : Str) :
+    (Validate.validate '(' ')' s = true ↔ s.count '(' = s.count ')') ∧
+    (Validate.validate '{' '}' s = true ↔ s.count '{' = s.count '}') :=
+  ⟨Validate.validate_iff '(' ')' (by decide) s, Validate.validate_iff '{' '}' (by decide) s⟩
 
 end IGVerif.C11
